@@ -98,9 +98,57 @@ def _run_shell(kind, toks):
     return " ".join(out)
 
 
+def _run_overlap(toks):
+    """attachments (all with the prompt shown) that overlap WITHOUT being nested: `a<k>` attaches stream k, `d<k>`
+    detaches it — in any order —, `r` reads what is there.  Every stream must hold exactly what was read while it was
+    attached: pairs <expected>/<actual>, expected computed here from the reads."""
+    import contextlib, vclock, mockio, chanimpl
+    from tbot.machine.channel import channel as tch
+    chunk, script, ops = int(toks[0]), chanimpl.parse_script(toks[1]), toks[2:]
+    out = []
+    with vclock.CLOCK:
+        vclock.CLOCK.reset(0)
+        io = mockio.ScriptIO(script, [])
+        ch = tch.Channel(io)
+        ch.__class__ = type("ChannelChunk", (tch.Channel,), {"READ_CHUNK_SIZE": chunk, "__slots__": ()})
+        open_cms, sinks, expect = {}, {}, {}
+
+        class Sink:
+            def __init__(self):
+                self.parts = []
+
+            def write(self, s):
+                self.parts.append(s)
+
+        for op in ops:
+            k = op[1:]
+            if op[0] == "a" and k not in open_cms:
+                sinks[k], expect[k] = Sink(), []
+                cm = ch.with_stream(sinks[k], show_prompt=True)
+                cm.__enter__()
+                open_cms[k] = cm
+            elif op[0] == "d" and k in open_cms:
+                open_cms.pop(k).__exit__(None, None, None)
+            elif op == "r":
+                try:
+                    data = ch.read(timeout=vclock.TICK)
+                except (TimeoutError, mockio.Hang):
+                    data = b""
+                for j in open_cms:
+                    expect[j].append(data)
+        for k in list(open_cms):
+            open_cms.pop(k).__exit__(None, None, None)
+        for k in sorted(sinks):
+            want = b"".join(expect[k]).decode("utf-8", errors="replace")
+            out.append(chars(want) + "/" + chars("".join(sinks[k].parts)))
+    return " ".join(out) if out else "-/-"
+
+
 def run(line):
     toks = line.split()
     assert toks[0] == "exec-log"
+    if toks[1] == "overlap":
+        return _run_overlap(toks[2:])
     tbot.log_event.command = _capturing_command
     try:
         if toks[1] == "uboot":
@@ -117,6 +165,21 @@ def gen(rng, params):
         for _ in range(rng.randint(0, 3)):
             lines.append(bytes(rng.choice(plain) for _ in range(rng.randint(0, 12))))
         return b"\n".join(lines) + (b"\n" if rng.random() < 0.8 else b"")
+    if rng.random() < 0.3:
+        # overlapping attachments, detached in any order
+        import changen as g
+        data = bytes(rng.choice(b"abcdefgh \n") for _ in range(rng.randint(4, 30)))
+        pieces = g.cut(rng, data)
+        ops, open_, nxt = [], [], 0
+        for _ in range(rng.randint(4, 12)):
+            r = rng.random()
+            if r < 0.35 and len(open_) < 3:
+                ops.append(f"a{nxt}"); open_.append(nxt); nxt += 1
+            elif r < 0.6 and open_:
+                ops.append(f"d{open_.pop(rng.randrange(len(open_)))}")
+            else:
+                ops.append("r")
+        return " ".join(["exec-log", "overlap", str(rng.choice([1, 2, 3, 64])), g.script_wire([0] * len(pieces), pieces)] + ops)
     if rng.random() < 0.7:
         prompt = rng.choice([b"=> ", b"=> ", b"U-Boot> "])
         chunk = rng.choice([1, 3, 64, params["readChunkSize"]])
